@@ -430,9 +430,7 @@ class GitFileHandler(abc.FileHandler):
         filename: str | pathlib.PurePosixPath,
         mode: t.Literal["r", "rb", "w", "wb"] = "rb",
     ) -> t.BinaryIO:
-        path = capellambse.helpers.normalize_pure_path(
-            filename, base=self.subdir
-        )
+        path = self.subdir / capellambse.helpers.normalize_pure_path(filename)
         if "w" in mode:
             if self._transaction is None:
                 raise abc.TransactionClosedError(
@@ -549,8 +547,8 @@ class GitFileHandler(abc.FileHandler):
         path
             The path to the directory to iterate over.
         """
-        path = capellambse.helpers.normalize_pure_path(path, base=self.subdir)
-        for subpath in self.cache_dir.joinpath(*path.parts).iterdir():
+        path = capellambse.helpers.normalize_pure_path(path)
+        for subpath in self.cache_dir.joinpath(self.subdir, path).iterdir():
             yield GitPath(self, pathlib.PurePosixPath(path, subpath.name))
 
     @staticmethod
@@ -851,10 +849,12 @@ class GitFileHandler(abc.FileHandler):
 
 class GitPath(abc.FilePath[GitFileHandler]):
     def is_dir(self) -> bool:
-        return self._parent.cache_dir.joinpath(self._path).is_dir()
+        parent = self._parent
+        return parent.cache_dir.joinpath(parent.subdir, self._path).is_dir()
 
     def is_file(self) -> bool:
-        return self._parent.cache_dir.joinpath(self._path).is_file()
+        parent = self._parent
+        return parent.cache_dir.joinpath(parent.subdir, self._path).is_file()
 
 
 @dataclasses.dataclass
